@@ -260,6 +260,14 @@ func qdScenario(cs qdCase) *mc.Scenario {
 					if int(v) > effBacklog {
 						fail("C12:backlog-over-bound", "%s: queue_size=%d exceeds the maximum %d", when, int(v), effBacklog)
 					}
+					if int(v) != len(waiting) {
+						fail("C20:queue-size-gauge", "%s: queue_size gauge=%d but %d callers are blocked", when, int(v), len(waiting))
+					}
+				} else if !strings.Contains(cs.ctor.name, "WithDefaults") && !strings.Contains(cs.ctor.name, "NewFifoBlockingLimiter") {
+					fail("C20:queue-size-gauge", "%s: no queue_size gauge was registered", when)
+				}
+				if v, ok := reg.Gauge(core.MetricQueueLimit); ok && int(v) != effBacklog {
+					fail("C20:queue-limit-gauge", "%s: queue_limit gauge=%d, configured maximum backlog is %d", when, int(v), effBacklog)
 				}
 				if busy != nil {
 					if b := busy(); b != len(heldToks) {
